@@ -178,3 +178,51 @@ def save_run(ctx, events, line, name):
 def slim(e):
     """an event without the bulky snapshot, for messages"""
     return {k: v for k, v in e.items() if k not in ("peers", "tracked")}
+
+
+class Bundle:
+    """Several implementation traces (each a list of events whose runs start with a reset event) concatenated into
+    one file, so that one TLC start validates all of them; marks are mapped back to their part."""
+
+    def __init__(self):
+        self.parts = []      # (label, first_line, n_events)
+        self.events = []
+
+    def add(self, label, events):
+        if isinstance(events, str):
+            events = vlib.read_ndjson(events)
+        if events and events[0].get("ev") != "reset":
+            raise vlib.ToolError("bundle part %s does not start with a reset event" % label)
+        self.parts.append((label, len(self.events) + 1, len(events)))
+        self.events.extend(events)
+        return self
+
+    def write(self, path):
+        vlib.write_ndjson(path, self.events)
+        return path
+
+    def part_of(self, line):
+        for label, first, n in self.parts:
+            if first <= line < first + n:
+                return label, line - first + 1
+        return None, 0
+
+    def first_line(self, label):
+        return next(f for l, f, _ in self.parts if l == label)
+
+
+def run_containing(events, idx, upto):
+    """events of the run that contains index idx (0-based), from its reset up to index `upto` (inclusive)"""
+    j = idx
+    while j > 0 and events[j].get("ev") != "reset":
+        j -= 1
+    return [json.loads(json.dumps(e)) for e in events[j:upto + 1]], idx - j
+
+
+def cut_at_reset(events, limit):
+    if len(events) <= limit:
+        return events
+    cut = limit
+    while cut < len(events) and events[cut].get("ev") != "reset":
+        cut += 1
+    return events[:cut]
